@@ -103,8 +103,19 @@ fn gen_filter(rng: &mut Rng, nex: usize, nins: usize, defs: &[Def]) -> String {
     }
 }
 
-fn gen_case(rng: &mut Rng, out: &mut Out, tier: &str) {
-    let nex = rng.range(2, 3) as usize;
+/// `dom`: `None` = the original random case (rng consumption unchanged); `Some(class)` = one of the
+/// input classes the original generator never produced (input-domain audit):
+///  0 reversed-pair underlyings (an instrument a3/a0 next to a0/a3; `und:0-3` must not match the former);
+///  1 decimal quantities and prices (1e-8 .. 1e7, fractions; prices that are exact as f64);
+///  2 engines with ONE exchange or with 4-5 exchanges;
+///  3 positions closed again (`flat`) before the command, some re-opened on the other side;
+///  4 a tracked order whose client order id equals the id the close-position order will get (9000+i);
+///  5 the same command three times in a row; market price 0.
+fn gen_case(rng: &mut Rng, out: &mut Out, tier: &str, dom: Option<u64>) {
+    let nex = match dom {
+        Some(2) => *rng.pick(&[1usize, 1, 4, 5]),
+        _ => rng.range(2, 3) as usize,
+    };
     let links: String = if rng.chance(75) {
         "H".repeat(nex)
     } else {
@@ -122,7 +133,15 @@ fn gen_case(rng: &mut Rng, out: &mut Out, tier: &str) {
     for e in 0..nex {
         for _ in 0..rng.range(1, 3) {
             let q = if rng.chance(70) { 3 } else { 4 };
-            defs.push((e, *rng.pick(&BASES), q));
+            let b = *rng.pick(&BASES);
+            if dom == Some(0) && rng.chance(50) {
+                // reversed pair (quote/base swapped), mostly of the pair 0-3 so that both directions exist
+                if rng.chance(70) { defs.push((e, 3, 0)) } else { defs.push((e, q, b)) }
+            } else if dom == Some(0) {
+                defs.push((e, 0, 3));
+            } else {
+                defs.push((e, b, q));
+            }
         }
     }
     // instruments stay grouped by exchange label: `IndexedInstruments` sorts by (exchange, name), and the
@@ -144,10 +163,32 @@ fn gen_case(rng: &mut Rng, out: &mut Out, tier: &str) {
             let ex = if rng.chance(6) { rng.below(nex as u64) as usize } else { d.0 };
             s.extend(order_ops(class, ex, i, cid, 1 + rng.below(3), rng.below(4)));
         }
+        let dom_qty = |rng: &mut Rng| -> String {
+            rng.pick(&["0.00000001", "0.3", "1234567.891", "0.00000123", "2.5", "10000000", "0.125", "99999.99999999"]).to_string()
+        };
         match rng.below(10) {
-            0..=3 => {}
-            4..=6 => s.push(format!("ev fill {i} B {}", 1 + rng.below(3))),
-            _ => s.push(format!("ev fill {i} S {}", 1 + rng.below(3))),
+            0..=3 if dom != Some(3) => {}
+            0..=6 => {
+                let q = if dom == Some(1) { dom_qty(rng) } else { (1 + rng.below(3)).to_string() };
+                s.push(format!("ev fill {i} B {q}"))
+            }
+            _ => {
+                let q = if dom == Some(1) { dom_qty(rng) } else { (1 + rng.below(3)).to_string() };
+                s.push(format!("ev fill {i} S {q}"))
+            }
+        }
+        if dom == Some(3) && rng.chance(70) {
+            // closed again before the command; sometimes re-opened on the other side
+            let was_buy = s.last().map(|l| l.contains(" B ")).unwrap_or(false);
+            s.push(format!("ev flat {i}"));
+            if rng.chance(35) {
+                s.push(format!("ev fill {i} {} {}", if was_buy { "S" } else { "B" }, 1 + rng.below(3)));
+            }
+        }
+        if dom == Some(4) && rng.chance(60) {
+            // an order tracked under the client order id of the future close-position order
+            let class = *rng.pick(&['F', 'O', 'P', 'C', 'D']);
+            s.extend(order_ops(class, d.0, i, 9000 + i as u64, 7, 1));
         }
         // a third of the positions were partially reduced before the command (open quantity below the
         // peak quantity ever held)
@@ -156,11 +197,23 @@ fn gen_case(rng: &mut Rng, out: &mut Out, tier: &str) {
         }
         if rng.chance(75) {
             let at = rng.below(s.len() as u64 + 1) as usize;
-            s.insert(at, format!("ev price {i} {}", 100 + rng.below(4)));
+            let p = match dom {
+                // exact as f64 (the market event carries an f64 price)
+                Some(1) => rng.pick(&["0.5", "100.25", "0.0009765625", "65536.125", "12345678", "0.015625"]).to_string(),
+                Some(5) if rng.chance(40) => "0".to_string(),
+                _ => (100 + rng.below(4)).to_string(),
+            };
+            s.insert(at, format!("ev price {i} {p}"));
         }
         scripts.push(s);
     }
-    let mut has_pos: Vec<bool> = scripts.iter().map(|s| s.iter().any(|l| l.starts_with("ev fill"))).collect();
+    let mut has_pos: Vec<bool> = scripts
+        .iter()
+        .map(|s| {
+            // the last fill / flat of the script decides (scripts of the original generator have no flat)
+            s.iter().rev().find(|l| l.starts_with("ev fill") || l.starts_with("ev flat")).map(|l| l.starts_with("ev fill")).unwrap_or(false)
+        })
+        .collect();
     let mut cursors = vec![0usize; nins];
     loop {
         let live: Vec<usize> = (0..nins).filter(|i| cursors[*i] < scripts[*i].len()).collect();
@@ -181,6 +234,9 @@ fn gen_case(rng: &mut Rng, out: &mut Out, tier: &str) {
         if rng.chance(60) {
             // the same command again while the first is still in flight
             out.line(format!("ev {cmd} {f}"));
+            if dom == Some(5) {
+                out.line(format!("ev {cmd} {f}"));
+            }
         }
         // sometimes the world moves on between commands
         if rng.chance(35) {
@@ -290,7 +346,14 @@ fn generate(seed: u64, n_cases: usize, tier: &str) {
     }
     for id in 0..n_cases {
         out.case(format!("r{id}"));
-        gen_case(&mut rng, &mut out, tier);
+        gen_case(&mut rng, &mut out, tier, None);
+    }
+    // input-domain classes, separately seeded so that the cases above stay as they were
+    let mut drng = Rng::new(seed ^ 0xD0A1_19D0_A119);
+    let extra = (n_cases / 8).max(if n_cases > 0 { 12 } else { 0 });
+    for k in 0..extra {
+        out.case(format!("d{k}"));
+        gen_case(&mut drng, &mut out, tier, Some(k as u64 % 6));
     }
     out.flush();
 }
